@@ -592,4 +592,96 @@ Section Safety.
         cbn [post fst snd]. apply Hopen with (oo := S offset); [lia|exact Hmo].
       + cbn [post fst snd]. apply Hbad. lia.
   Qed.
+
+  (* ---- closing brace ---- *)
+  Lemma finalize_iif_good : forall fo rest init i c subs chain,
+    fo <= len -> i_off i <= fo ->
+    Forall (open_ok fo) rest -> Forall (Forall leaf_ok) rest -> Forall leaf_ok init -> Forall leaf_ok subs ->
+    good (fun st1 => structok fo (ps_stack st1) (ps_cur st1) /\ ps_fo st1 = fo)
+         (finalize_iif content fo rest init i c subs chain).
+  Proof.
+    intros fo rest init i c subs chain Hfo Hi Hr1 Hr2 Hinit Hsubs. unfold finalize_iif.
+    gbind (fun _ : nat => True); [eapply good_weaken; [apply csub_good; exact Hi|auto]|]. intros d _.
+    set (i1 := mkI (i_off i) (t16 d) 0 (i_tlen i) (i_foff i) (i_flen i) (i_tid i) (i_fid i)).
+    gbind (fun r : iifrec * bool => isame i1 (fst r)).
+    { apply iif_attrs_good; [exact Hfo|cbn; lia|lia]. }
+    intros [i2 repush] [Eoff _]. cbn [fst snd] in *. cbn in Eoff.
+    (* the four shapes of the resulting state *)
+    assert (Hpush : forall i' cur', i_off i' = i_off i -> Forall leaf_ok cur' ->
+              structok fo ((init ++ [PIIf i' c subs]) :: rest) cur').
+    { intros i' cur' E Hc. repeat split.
+      - constructor; [|exact Hr1]. exists init, (PIIf i' c subs). split; [reflexivity|]. cbn. lia.
+      - constructor; [|exact Hr2]. apply Forall_snoc. split; [exact Hinit|exact I].
+      - exact Hc. }
+    assert (Hplain : forall cur', Forall leaf_ok cur' -> structok fo rest cur') by (intros; repeat split; assumption).
+    assert (Hdropped : structok fo
+              (ps_stack (if repush then mkS fo 0 ((init ++ [PIIf i2 c subs]) :: rest) (removelast subs) true chain
+                         else mkS fo 0 rest init false chain))
+              (ps_cur (if repush then mkS fo 0 ((init ++ [PIIf i2 c subs]) :: rest) (removelast subs) true chain
+                       else mkS fo 0 rest init false chain)) /\
+            ps_fo (if repush then mkS fo 0 ((init ++ [PIIf i2 c subs]) :: rest) (removelast subs) true chain
+                   else mkS fo 0 rest init false chain) = fo).
+    { destruct repush; cbn [ps_stack ps_cur ps_fo]; (split; [|reflexivity]).
+      - apply Hpush; [exact Eoff|apply Forall_removelast; exact Hsubs].
+      - apply Hplain; exact Hinit. }
+    destruct (negb (N.eqb (i_toff i2) 0) || negb (N.eqb (i_foff i2) 0)); [|exact Hdropped].
+    destruct (startid_scan subs _ 0) as [id|]; [|exact Hdropped].
+    match goal with |- good _ (bind (sub_tags_valid ?i3 subs) _) =>
+      assert (E3 : i_off i3 = i_off i) by (destruct (N.ltb (i_toff i2) (i_foff i2)); cbn; exact Eoff);
+      generalize dependent i3 end.
+    intros i3 E3.
+    gbind (fun _ : bool => True); [apply sub_tags_valid_good; exact Hsubs|]. intros ok _.
+    destruct ok; destruct repush; cbn [good ps_stack ps_cur ps_fo]; (split; [|reflexivity]).
+    - apply Hpush; [exact E3|exact Hsubs].
+    - apply Hplain. apply Forall_snoc. split; [exact Hinit|exact I].
+    - apply Hpush; [exact E3|apply Forall_removelast; exact Hsubs].
+    - apply Hplain; exact Hinit.
+  Qed.
+
+  Lemma do_line_end_post : forall st, Inv st -> ps_fm st = tpp_LineEndID -> post (rested st) (do_line_end content st).
+  Proof.
+    intros st HI Hk.
+    assert (Hm : ps_fm st <> 0%N) by (rewrite Hk; discriminate).
+    destruct (inv_parts st HI Hm) as (Hfo & Htl & _ & Hs1 & Hs2 & Hs3).
+    unfold do_line_end.
+    destruct (ps_child st); [|apply rested_refl; exact HI].
+    destruct (ps_stack st) as [|top rest] eqn:Est; [apply rested_refl; exact HI|].
+    inversion Hs1 as [|? ? (init & t & Et & Hc) Hr1]; subst. inversion Hs2 as [|? ? Hl Hr2]; subst.
+    apply Forall_snoc in Hl. destruct Hl as [Hli _].
+    rewrite (writeback_good 1 (ps_fo st) init t (ps_cur st) Hc). cbn [bind]. rewrite split_last_app.
+    assert (Hrest : forall cur', Forall leaf_ok cur' ->
+              rested st (mkS (ps_fo st) 0 rest cur' false (ps_chain st))).
+    { intros cur' Hc'. unfold rested. cbn [ps_fo ps_stack ps_cur]. split; [|lia]. repeat split; assumption. }
+    destruct t as [| | |o e v sb|i c sb|l sb|o eo cases]; cbn in Hc; try contradiction; cbn [plug].
+    - cbn [post]. apply Hrest. apply Forall_snoc. split; [exact Hli|exact I].
+    - apply good_post. eapply good_weaken; [apply finalize_iif_good; try assumption|].
+      intros st1 [H1 H2]. unfold rested. rewrite H2. split; [exact H1|lia].
+    - cbn [post]. apply Hrest. apply Forall_snoc. split; [exact Hli|exact I].
+    - destruct (cases_split cases Hc) as (ci & co & ce & cc & sb & E). rewrite E.
+      cbn [post]. apply Hrest. apply Forall_snoc. split; [exact Hli|exact I].
+  Qed.
+
+  (* ---- one iteration ---- *)
+  Lemma step_post : forall st, Inv st -> ps_fm st <> 0%N -> post (stepped st) (step numf w content st).
+  Proof.
+    intros st HI Hm. unfold step.
+    destruct (N.eqb_spec (ps_fm st) tpp_LineEndID) as [E|_]; [apply then_next_post, do_line_end_post; assumption|].
+    destruct (N.eqb_spec (ps_fm st) tpp_VariableID) as [E|_]; [apply do_var_post; [intros v H; exact H|exact HI|rewrite E; reflexivity]|].
+    destruct (N.eqb_spec (ps_fm st) tpp_RawVariableID) as [E|_]; [apply do_var_post; [intros v H; exact H|exact HI|rewrite E; reflexivity]|].
+    destruct (N.eqb_spec (ps_fm st) tpp_MathID) as [E|_]; [apply do_math_post; assumption|].
+    destruct (N.eqb_spec (ps_fm st) tpp_SuperVariableID) as [E|_]; [apply do_svar_post; assumption|].
+    destruct (N.eqb_spec (ps_fm st) tpp_InLineIfID) as [E|_]; [apply do_iif_post; assumption|].
+    destruct (N.eqb_spec (ps_fm st) tpp_LoopID) as [E|_]; [apply do_loop_post; assumption|].
+    destruct (N.eqb_spec (ps_fm st) tpp_LoopEndID) as [E|_]; [apply then_next_post, do_loop_end_post; assumption|].
+    destruct (N.eqb_spec (ps_fm st) tpp_IfID) as [E|_]; [apply do_if_post; assumption|].
+    destruct (N.eqb_spec (ps_fm st) tpp_IfEndID) as [E|_]; [apply then_next_post, do_if_end_post; assumption|].
+    destruct (N.eqb_spec (ps_fm st) tpp_ElseID) as [E|E11].
+    - pbind (fun r : pstate * bool => if snd r then rested st (fst r) else stepped st (fst r)); [apply do_else_post; assumption|].
+      intros [st1 b] H. cbn [fst snd] in *. destruct b; [apply then_next_post; exact H|exact H].
+    - (* no other match id has a token *)
+      exfalso. destruct (inv_parts st HI Hm) as (_ & _ & H1 & _).
+      unfold toklen in H1.
+      destruct (ps_fm st) as [|[[[[|[]|]|[[]|[]|]|]|[[|[]|]|[[]|[]|]|]|]|[[[|[]|]|[[]|[]|]|]|[[|[]|]|[[]|[]|]|]|]|]]; try lia;
+        match goal with H : _ <> _ |- _ => try (apply H; reflexivity) end; try contradiction.
+  Qed.
 End Safety.
